@@ -59,8 +59,17 @@ func (p *Paragraph) WriteTo(out io.Writer) error {
 	for _, key := range p.Order {
 		value := p.Values[key]
 
+		/* one trailing newline ends the last line (the reader always adds
+		 * it to multi-line values); it is not an empty line of its own */
+		value = strings.TrimSuffix(value, "\n")
 		value = strings.Replace(value, "\n", "\n ", -1)
-		value = strings.Replace(value, "\n \n", "\n .\n", -1)
+		/* every empty line becomes " .", also in runs and at the end */
+		for strings.Contains(value, "\n \n") {
+			value = strings.Replace(value, "\n \n", "\n .\n", -1)
+		}
+		if strings.HasSuffix(value, "\n ") {
+			value += "."
+		}
 
 		if _, err := out.Write(
 			[]byte(fmt.Sprintf("%s: %s\n", key, value)),
